@@ -35,6 +35,13 @@ def rule_phi_insertion(ctx):
     fn = find_fn(SSA, "insert_phi_statements")
     if fn is None:
         return ctx.missing(R, "insert_phi_statements")
+    import c14ssa
+
+    decided = [c14ssa.rule(ctx, R, part_) for part_ in ("phis", "renaming", "block-methods")]
+    if all(decided):
+        # the driver and the provided block methods are decided by evaluation on model graphs (rules/c14ssa.py); the shape
+        # obligations below are the fallback for a driver that leaves the evaluator's subset
+        return
     import alpha
     fn, miss_ = alpha.canon(fn, [("basic_blocks", "param", 0), ("dominator_tree", "param", 1), ("env", "param", 2),
                                  ("work_list", "let", "(0..basic_blocks.len()).collect()"),
